@@ -14,29 +14,41 @@ def build_mc(rt=False):
     return vlib.build_test('./internal/ircserver', out, ov, tags='verif verifrt' if rt else 'verif')
 
 
-def reexecute(binary, v, count=5, test='TestVerifMC'):
-    """Replay one violation `count` times from scratch in a fresh process."""
+def reexecute(binary, v, count=5, test='TestVerifMC', fresh_each=False):
+    """Replay one violation `count` times from scratch in a fresh process (fresh_each: one process per
+    re-execution, for findings that depend on what the process executed before)."""
     sd = vlib.scratch_dir()
     p = os.path.join(sd, 'replay-in.json')
     o = os.path.join(sd, 'replay-out.json')
     json.dump(v, open(p, 'w'))
-    if os.path.exists(o):
-        os.remove(o)
-    env = dict(os.environ)
-    env.update({'VERIF_REPLAY': p, 'VERIF_REPLAY_COUNT': str(count), 'VERIF_OUT': o})
-    r = subprocess.run([binary, '-test.run', '^' + test + '$', '-test.timeout', '0'], env=env, cwd=sd,
-                       stdout=subprocess.PIPE, stderr=subprocess.STDOUT, text=True)
-    if not os.path.exists(o):
-        sys.stderr.write(r.stdout[-3000:])
-        raise SystemExit('HARNESS-REPLAY-FAILED for %s' % v.get('sig'))
-    return json.load(open(o))
+
+    def once(n):
+        if os.path.exists(o):
+            os.remove(o)
+        env = dict(os.environ)
+        env.update({'VERIF_REPLAY': p, 'VERIF_REPLAY_COUNT': str(n), 'VERIF_OUT': o})
+        r = subprocess.run([binary, '-test.run', '^' + test + '$', '-test.timeout', '0'], env=env, cwd=sd,
+                           stdout=subprocess.PIPE, stderr=subprocess.STDOUT, text=True)
+        if not os.path.exists(o):
+            sys.stderr.write(r.stdout[-3000:])
+            raise SystemExit('HARNESS-REPLAY-FAILED for %s' % v.get('sig'))
+        return json.load(open(o))
+    if not fresh_each:
+        return once(count)
+    out = {'runs': [], 'reproduced': True, 'identical': True}
+    for _ in range(count):
+        r = once(1)
+        out['runs'] += r['runs']
+        out['reproduced'] = out['reproduced'] and r['reproduced']
+    out['identical'] = all(x == out['runs'][0] for x in out['runs'])
+    return out
 
 
 def run_mc(prop, tier, monitors, assumptions, rule, binary=None, extra_env=None, level='model_checking', pre_violations=(), extra_cov=None, t0=None, deep_quick=4, deep_thorough=5):
     t0 = t0 or time.time()
     binary = binary or build_mc()
     mons = ','.join(monitors)
-    budget = float(os.environ.get('VERIF_BUDGET_S', '150' if tier == 'quick' else '1500'))
+    budget = float(os.environ.get('VERIF_BUDGET_S', '150' if tier == 'quick' else '3000'))
     deadline = int(t0 + budget)
     base_env = {'VERIF_MONS': mons, 'VERIF_DEADLINE': str(deadline)}
     base_env.update(extra_env or {})
@@ -46,7 +58,10 @@ def run_mc(prop, tier, monitors, assumptions, rule, binary=None, extra_env=None,
     if tier == 'quick':
         plan = [('reduced', 1)]         # level 2: mutator successors x reduced alphabet
     else:
-        plan = [('full', 1), ('reduced', 2)]
+        # level 2 with the full alphabet (~8 k entries per state).  A third level is out of reach (the depth-2
+        # frontier has millions of states) and emitting that frontier exhausted the memory of the machine, so
+        # the thorough tier does not emit it; depth beyond 2 is the business of the deep tier below.
+        plan = [('full', 1)]
     all_results = []
     violations = list(pre_violations)
     seen_keys = set()
@@ -60,12 +75,13 @@ def run_mc(prop, tier, monitors, assumptions, rule, binary=None, extra_env=None,
         env['VERIF_ALPHA'] = alpha
         env['VERIF_EMIT'] = '1' if emit else '0'
         n = vlib.NCPU
+        pwe = None
         if work is not None:
-            wf = os.path.join(sd, 'work-%d.json' % len(per_level))
-            json.dump(work, open(wf, 'w'))
-            env['VERIF_WORK'] = wf
             n = max(1, min(vlib.NCPU, len(work)))
-        return vlib.run_workers(binary, 'TestVerifMC', n, env=env)
+            run_level.count += 1
+            pwe = vlib.shard_work(work, n, 'work-%d' % run_level.count)
+        return vlib.run_workers(binary, 'TestVerifMC', n, env=env, per_worker_env=pwe)
+    run_level.count = 0
 
     # level 1
     res = run_level('full', None, True)
@@ -82,6 +98,7 @@ def run_mc(prop, tier, monitors, assumptions, rule, binary=None, extra_env=None,
                     continue
                 seen_keys.add(n_['key'])
                 nxt.append(n_['work'])
+            r.pop('next', None); r.pop('keys', None)   # keep the coordinator small
         per_level.append({'level': lvl, 'states': sum(r['states'] for r in res), 'transitions': sum(r['transitions'] for r in res),
                           'new_successor_states': len(nxt)})
         if not plan:
@@ -128,6 +145,7 @@ def run_mc(prop, tier, monitors, assumptions, rule, binary=None, extra_env=None,
                     continue
                 deep_seen.add(n_['key'])
                 nxt.append(n_['work'])
+            r.pop('next', None); r.pop('keys', None)
         deep_levels.append({'depth': d, 'states_expanded': sum(r['states'] for r in lvl_res), 'transitions': sum(r['transitions'] for r in lvl_res), 'new_states': len(nxt)})
         per_level.append({'level': 'deep-%d' % d, 'states': sum(r['states'] for r in lvl_res), 'transitions': sum(r['transitions'] for r in lvl_res), 'new_successor_states': len(nxt)})
         frontier = nxt
@@ -185,7 +203,7 @@ def run_mc(prop, tier, monitors, assumptions, rule, binary=None, extra_env=None,
         'notes': notes,
         'rule': rule,
         'bounds': 'deep tier: BFS with the focused alphabet to depth %d from 4 base scenarios; ' % deep_depth + 'scenarios x full alphabet (depth 1), mutator successors x %s alphabet (depth 2)%s' % (
-            'reduced' if tier == 'quick' else 'full', '' if tier == 'quick' else ', depth-2 mutator successors x reduced alphabet (depth 3)'),
+            'reduced' if tier == 'quick' else 'full', ''),
     }
     if extra_cov:
         cov.update(extra_cov)
